@@ -271,3 +271,7 @@ def expand(item, seed):
         return
     for sc in _expand0(item, seed):
         yield sc
+
+
+# round 7 summary for the evidence file
+RULE = RULE + "  Trace logging (round 7): 15 % of the seeded scenarios run with the library's enableTrace switched on."
